@@ -249,6 +249,38 @@ def run(tier: str, seed: int) -> int:
     tag_behaviour(res, order, dict(reg["tags"]))
     unregistered_codes(res, order, spaces)
     res.notes["not_in_registry"] = sorted(set(not_in_registry))
+    # bit sets over a key space (reporting policy): a code is accepted exactly when it is a sum of registered bits, and comes back as exactly those
+    # names; a bit that no name is registered for is not a code of the space (C08-q)
+    import cbor2 as _cbor2
+    for ci, cls in enumerate(order):
+        kind, name, x = descs[id(cls)]
+        if kind != "bitfield":
+            continue
+        bit_kind, bit_name, bit_x = descs[id(order[x[0]])]
+        if bit_kind != "enum":
+            continue
+        bits = {n: c for n, c in bit_x}
+        full = sum(bits.values())
+        for code in list(range(0, 300)) + [511, 512, 65535, 65536, -1, -2]:
+            expected_ok = code >= 0 and (code & ~full) == 0 and all(code & c == c or code & c == 0 for c in bits.values())
+            try:
+                r = cls.from_cbor(_cbor2.dumps(code)).to_obj()
+                ok = True
+            except ValueError:
+                ok, r = False, None
+            except BaseException as e:  # noqa
+                res.spec_failures.append({"space": bit_name, "bit-set": name, "code": code, "impl": suitio.err_class(e), "what": "unexpected exception decoding a bit set"})
+                continue
+            res.case([name, code, "bitset"])
+            res.count("bitset:" + ("accepted" if ok else "rejected"))
+            mb = drv.call({"op": "suit.decode", "cls": ci, "bytes": _cbor2.dumps(code).hex()})
+            if ("ok" in mb) != ok:
+                res.mismatches.append({"op": "suit.decode", "bit-set": name, "code": code, "impl": "accepted" if ok else "rejected", "model": mb})
+            if ok != expected_ok:
+                res.spec_failures.append({"space": bit_name, "bit-set": name, "code": code, "accepted": ok, "rendered": r,
+                                          "what": "a bit-set code is accepted although a bit of it has no registered name" if ok else "a sum of registered bits is rejected"})
+            elif ok and (not isinstance(r, list) or sorted(r) != sorted(n for n, c in bits.items() if code & c)):
+                res.spec_failures.append({"space": bit_name, "bit-set": name, "code": code, "rendered": r, "what": "a bit-set code is rendered as other names than those of its bits"})
     # a registered name the running code no longer has in its key space: the name itself is the failing input (C08-p)
     for sp, rn in registry.items():
         if sp not in spaces:
